@@ -46,11 +46,20 @@ type iOp struct {
 	nh   uint64 // NextHopFaceId in the LP header (0 = absent)
 	hint string // forwarding hint delegation ("" = none)
 	hl   uint   // HopLimit carried by the Interest on arrival (0 = no HopLimit element)
+	ifid uint64 // IncomingFaceId header the PEER put on the frame (0 = absent)
 }
 type dOp struct {
 	face uint64
 	name string
 	tok  string // none | echo0 | echo1
+	ifid uint64 // IncomingFaceId header the PEER put on the frame (0 = absent)
+}
+
+// uOp installs one FIB universe of the fibmix configurations (first step of a history): the next
+// hops of the FIB entry that covers the probe name, in insertion order.
+type uOp struct {
+	prefix string
+	routes []fwsim.Route
 }
 type tOp struct{ dt time.Duration }
 
@@ -59,11 +68,21 @@ type opDef struct {
 	d    *dOp
 	t    *tOp
 	down uint64 // != 0: the face is destroyed (removed from the forwarder's face tables)
+	u    *uOp
+	f    *fOp
+}
+
+// fOp changes the FIB entry of the producer prefix between packets (fibmix configurations).
+type fOp struct {
+	add  bool
+	face uint64 // a non-local face (the producer's own route is never removed)
+	cost uint64
 }
 
 type sys struct {
 	t1     bool   // the driven thread has id 1 of 2 (names under /localhost belong to thread 0)
 	nameA  string // the ordinary name of the alphabet ("/a", or one that hashes to the driven thread)
+	fibmix bool   // the first step chooses the FIB entry that covers the probe name (see universes)
 	cfg    fwsim.Config
 	names  []string
 	defs   map[string]opDef
@@ -76,6 +95,9 @@ type inst struct {
 	live     []uint32        // revealed tokens whose entry still exists, in canonical dump order
 	nonceCtr uint32
 	dump     table.VerifPitCsDump
+	started  bool
+	fib      string // fibmix: the chosen universe and the route changes since (for reports)
+	uprefix  string // fibmix: the prefix of the FIB entry that covers the probe name and lists the producer L5
 }
 
 func (s *sys) add(n string, d opDef) {
@@ -101,13 +123,20 @@ func (s *sys) addI(o iOp) {
 	if o.hl != 0 {
 		sh += fmt.Sprintf("+hl=%d", o.hl)
 	}
+	if o.ifid != 0 {
+		sh += "+ifid=" + faceLabel[o.ifid]
+	}
 	oo := o
 	s.add(fmt.Sprintf("I(%s,%s,%s)", faceLabel[o.face], o.name, sh), opDef{i: &oo})
 }
 
 func (s *sys) addD(o dOp) {
 	oo := o
-	s.add(fmt.Sprintf("D(%s,%s,%s)", faceLabel[o.face], o.name, o.tok), opDef{d: &oo})
+	tk := o.tok
+	if o.ifid != 0 {
+		tk += "+ifid=" + faceLabel[o.ifid]
+	}
+	s.add(fmt.Sprintf("D(%s,%s,%s)", faceLabel[o.face], o.name, tk), opDef{d: &oo})
 }
 
 func build(cfgName string) explore.System {
@@ -122,6 +151,8 @@ func build(cfgName string) explore.System {
 		switch x {
 		case "link":
 			link = true // arrivals go through a real NDNLPLinkService (fwsim.Config.RealLinkService)
+		case "fibmix":
+			s.fibmix, tiny = true, true
 		case "tiny":
 			tiny = true // a handful of interacting ops, for the deep search without de-duplication
 		case "t1":
@@ -141,7 +172,9 @@ func build(cfgName string) explore.System {
 			{ID: fwsim.L5, Label: "L5", Scope: defn.Local, Link: defn.PointToPoint, CCF: true},
 			// a NON-LOCAL face on which local fields (consumer-controlled forwarding) were enabled:
 			// faces/create and faces/update accept LocalFieldsEnabled for any face
-			{ID: fwsim.N4, Label: "N4", Scope: defn.NonLocal, Link: defn.PointToPoint, CCF: true},
+			// (the LocalFields flag switches on consumer-controlled forwarding, incoming face
+			// indication and local cache policy together)
+			{ID: fwsim.N4, Label: "N4", Scope: defn.NonLocal, Link: defn.PointToPoint, CCF: true, IFI: true, LCP: true},
 		},
 		Routes: []fwsim.Route{
 			{Prefix: "/", Face: fwsim.N2, Cost: 1},          // default route towards the network
@@ -153,6 +186,11 @@ func build(cfgName string) explore.System {
 	}
 	if s.t1 {
 		s.cfg.ThreadID = 1
+	}
+	if s.fibmix {
+		// the entries under /localhost are installed by the universe step
+		s.cfg.Routes = []fwsim.Route{{Prefix: "/", Face: fwsim.N2, Cost: 1}, {Prefix: A, Face: fwsim.N3, Cost: 1}}
+		s.addUniverses()
 	}
 	switch st {
 	case "br":
@@ -225,8 +263,34 @@ func build(cfgName string) explore.System {
 	s.addI(iOp{face: fwsim.N2, name: "/localhost/x", hl: 2})
 	s.addI(iOp{face: fwsim.L1, name: "/localhop/z", hl: 2})
 	s.addI(iOp{face: fwsim.N2, name: "/localhop/z", hl: 255})
+	if link {
+		// LP header fields only a forwarder puts on frames it SENDS, put on a RECEIVED frame by the
+		// peer: IncomingFaceId naming a local face (the producer / management face, the application)
+		// or a non-local one, on the non-local face with local fields enabled (N4) and on one without
+		// (N2). Whatever the header says, the packet arrived on a non-local face. Only the real link
+		// service reads the header, so these ops exist in the "link" configurations only.
+		for _, id := range []uint64{fwsim.L5, fwsim.L1, fwsim.N2} {
+			s.addI(iOp{face: fwsim.N4, name: "/localhost/x", ifid: id})
+		}
+		s.addI(iOp{face: fwsim.N4, name: probeName, ifid: fwsim.L1, nh: fwsim.L5})
+		s.addI(iOp{face: fwsim.N2, name: "/localhost/x", ifid: fwsim.L5})
+		s.addI(iOp{face: fwsim.N4, name: A, ifid: fwsim.L1})
+		for _, tk := range []string{"none", "echo0"} {
+			s.addD(dOp{face: fwsim.N4, name: "/localhost/x", tok: tk, ifid: fwsim.L5})
+			s.addD(dOp{face: fwsim.N4, name: probeName, tok: tk, ifid: fwsim.L5})
+		}
+		s.addD(dOp{face: fwsim.N2, name: probeName, tok: "none", ifid: fwsim.L5})
+	}
 	if tiny {
 		keep := []string{"I(L1," + probeName + ",plain+hl=2)", "I(N2," + A + ",plain)", "I(N2,/,cbp)", "D(L5," + probeName + ",none)", "D(L5,/localhost/x,echo0)", "D(N2,/localhost/x,echo0)", "T(100ms)"}
+		if s.fibmix {
+			for _, n := range s.names {
+				if d := s.defs[n]; d.u != nil || d.f != nil {
+					keep = append(keep, n)
+				}
+			}
+			keep = append(keep, "I(L1,"+probeName+",plain)", "I(N2,"+probeName+",plain)")
+		}
 		s.names, s.allOps = nil, nil
 		for _, n := range keep {
 			if _, ok := s.defs[n]; !ok {
@@ -259,6 +323,9 @@ func (s *sys) Ops(i any) []explore.Op {
 	in := i.(*inst)
 	out := make([]explore.Op, 0, len(s.allOps))
 	for _, op := range s.allOps {
+		if s.fibmix && (s.defs[op.Name].u != nil) == in.started {
+			continue // a universe is chosen first, and only first
+		}
 		if f := s.defs[op.Name].down; f != 0 && !in.sim.FaceRegistered(f) {
 			continue
 		}
@@ -314,7 +381,20 @@ func (s *sys) step(in *inst, op explore.Op) (v []report.Violation) {
 	if !ok {
 		report.Fatal("unknown op %q", op.Name)
 	}
+	in.started = true
 	switch {
+	case d.u != nil:
+		for _, rt := range d.u.routes {
+			in.sim.AddRoute(rt.Prefix, rt.Face, rt.Cost)
+		}
+		in.fib, in.uprefix = op.Name, d.u.prefix
+	case d.f != nil:
+		if d.f.add {
+			in.sim.AddRoute(in.uprefix, d.f.face, d.f.cost)
+		} else {
+			in.sim.RemoveRoute(in.uprefix, d.f.face)
+		}
+		in.fib += " ; " + op.Name
 	case d.i != nil:
 		o := d.i
 		in.nonceCtr++
@@ -328,6 +408,9 @@ func (s *sys) step(in *inst, op explore.Op) (v []report.Violation) {
 		var lp fwsim.LP
 		if o.nh != 0 {
 			lp.NextHopFaceID = fwsim.U64(o.nh)
+		}
+		if o.ifid != 0 {
+			lp.IncomingFaceID = fwsim.U64(o.ifid)
 		}
 		rejected := nonLocal(o.face) && isLocalhostStr(o.name)
 		before := ""
@@ -357,6 +440,9 @@ func (s *sys) step(in *inst, op explore.Op) (v []report.Violation) {
 			lp.PitToken = in.sim.Token(in.live[0])
 		case "echo1":
 			lp.PitToken = in.sim.Token(in.live[1])
+		}
+		if o.ifid != 0 {
+			lp.IncomingFaceID = fwsim.U64(o.ifid)
 		}
 		rejected := nonLocal(o.face) && isLocalhostStr(o.name)
 		before := ""
@@ -409,6 +495,13 @@ func (s *sys) CheckState(i any) (v []report.Violation) {
 		return nil // Interests under /localhost are dispatched to thread 0, which is not the driven one
 	}
 	in := i.(*inst)
+	if s.fibmix && in.uprefix == "" {
+		return nil // no universe chosen yet: the FIB has no route towards the producer
+	}
+	fibNote := "FIB has /localhost/nfd -> L5 (cost 0)"
+	if s.fibmix {
+		fibNote = "FIB (next hops in insertion order): " + in.fib
+	}
 	bad := func(key, detail string) {
 		v = append(v, report.Violation{Clause: "C09.local", Key: key, Detail: detail})
 	}
@@ -458,7 +551,7 @@ func (s *sys) CheckState(i any) (v []report.Violation) {
 		}
 		if toL5 == 0 && !hasOut(fwsim.L5) {
 			bad("Interest under /localhost from a local application does not reach the local producer face ("+round+")",
-				fmt.Sprintf("L1 sent Interest %s (fresh nonce); FIB has /localhost/nfd -> L5 (cost 0); sends: %v; no out-record towards L5 either", probeName, sends))
+				fmt.Sprintf("L1 sent Interest %s (fresh nonce); %s; sends: %v; no out-record towards L5 either", probeName, fibNote, sends))
 			return false
 		}
 		if !hasIn(fwsim.L1) {
@@ -495,6 +588,13 @@ func (s *sys) Canon(i any) string {
 	if !in.sim.FaceRegistered(fwsim.N2) {
 		down = "down(N2)|"
 	}
+	if s.fibmix {
+		if !in.started {
+			down += "ROOT|"
+		}
+		nodes, aux := table.VerifDumpFib(table.FibStrategyTable)
+		down += fmt.Sprintf("FIB%v%v|", nodes, aux)
+	}
 	return down + fwsim.CanonPitCs(in.dump, in.sim.Queue(), fwsim.CanonOpts{
 		Token: func(t uint32) string {
 			if k, ok := liveIdx[t]; ok {
@@ -523,7 +623,9 @@ func configs(th bool) []explore.Config {
 	}
 	if !th {
 		// cheaper configurations first: what they leave of their share goes to the deeper ones
-		add("br", "cs1", "tree link", 4)  // arrivals through the real NDNLPLinkService
+		add("br", "cs0", "tree fibmix", 3) // FIB universes (fibmix.go): universe + 2 steps
+		add("mc", "cs1", "ht fibmix", 3)
+		add("br", "cs1", "tree link", 4) // arrivals through the real NDNLPLinkService
 		add("mc", "cs1", "tree t1", 5)    // the driven thread is thread 1 of 2
 		add("br", "cs1", "ht link t1", 4) // both
 		// audit of the canonical form, and a deep history search, both WITHOUT de-duplication
@@ -537,6 +639,9 @@ func configs(th bool) []explore.Config {
 		return c
 	}
 	for _, fib := range []string{"tree", "ht"} {
+		add("br", "cs0", fib+" fibmix", 4)
+		add("br", "cs1", fib+" fibmix", 4)
+		add("mc", "cs1", fib+" fibmix", 4)
 		for _, cs := range []string{"cs1", "cs0"} {
 			for _, st := range []string{"br", "mc"} {
 				add(st, cs, fib, 7)
@@ -554,19 +659,23 @@ func configs(th bool) []explore.Config {
 func main() {
 	fwsim.ReplayIfRequested("C09", "C09.panic", build)
 	explore.Main(explore.Spec{
-		Extra: scopePass,
+		Extra: func(rep *report.Reporter, cov report.Coverage) {
+			lpHeaderPass(rep, cov)
+			scopePass(rep, cov)
+		},
 		ID:    "C09", PanicClause: "C09.panic", Build: build,
 		Configs: configs,
 		Budget: func(th bool) time.Duration {
 			if th {
 				return 25 * time.Minute
 			}
-			return 90 * time.Second
+			return 85 * time.Second
 		},
-		Rule: "BFS over histories of Interest arrivals (names /localhost/x, /localhost/nfd/y, /localhop/z, /a, / and /localhost with CanBePrefix; with and without a HopLimit element (1, 2, 255); from local L1 and non-local N2/N3/N4; NextHopFaceId -> N2 / L5 / L1 on the local-fields face L1, on N2 (local fields disabled) and on the NON-LOCAL face N4 with local fields enabled), Data arrivals (same names, from L5/N2/L1, no token or echo of a live upstream token) clock steps and the destruction of the non-local face N2 (after which packets it delivered earlier still arrive), on one real fw.Thread with leaky FIBs (default route and /localhost route to non-local N2, /localhost/nfd -> {L5,N2}), best-route or multicast on /, cache on/off, FIB tree/hash table; C09.out checked on every SendPacket of every step and of the probes, C09.in by comparing the complete white-box dump before/after each rejected packet, C09.local by a fetch-twice probe in every explored state",
+		Rule: "BFS over histories of Interest arrivals (names /localhost/x, /localhost/nfd/y, /localhop/z, /a, / and /localhost with CanBePrefix; with and without a HopLimit element (1, 2, 255); from local L1 and non-local N2/N3/N4; NextHopFaceId -> N2 / L5 / L1 on the local-fields face L1, on N2 (local fields disabled) and on the NON-LOCAL face N4 with local fields enabled), Data arrivals (same names, from L5/N2/L1, no token or echo of a live upstream token) clock steps and the destruction of the non-local face N2 (after which packets it delivered earlier still arrive), on one real fw.Thread with leaky FIBs (default route and /localhost route to non-local N2, /localhost/nfd -> {L5,N2}), best-route or multicast on /, cache on/off, FIB tree/hash table; in the configurations that go through the real NDNLPLinkService also frames on which the PEER put an IncomingFaceId header (naming L5 / L1 / N2) on the non-local face N4 with all three local-fields options (consumer-controlled forwarding, incoming face indication, local cache policy) and on N2 without, Interests and Data; FIB universes (fibmix configurations): the first step installs the FIB entry that covers the probe name (/localhost/nfd below a /localhost -> N2 entry, or /localhost) with the local producer L5 at cost 1 and every subset of the non-local faces {N2,N3} at cost 0|1|2 in every insertion order (134 universes), non-local next hops are added/removed between packets; separately an exhaustive sweep of 24192 received frames (lpsweep.go: 8 option combinations of the receiving non-local face x 2 base states x 3 packets under /localhost x IncomingFaceId absent|L1|L5|N2|self|missing|0 x NextHopFaceId absent|L5|N2 x PitToken absent|live or well-formed|4 bytes x CachePolicy x CongestionMark x NonDiscovery) through the real link service, each on a fresh forwarder; C09.out checked on every SendPacket of every step and of the probes, C09.in by comparing the complete white-box dump before/after each rejected packet, C09.local by a fetch-twice probe in every explored state",
 		Assumptions: []string{
 			"faces are simulated at the dispatch.Face seam (verif/harness/fwsim): Scope() of the fake face is what the thread consults; NextHopFaceId is copied into the packet only on faces with local fields enabled, as NDNLPLinkService.handleIncomingFrame does",
 			"L5 is a pure producer (never sends Interests), so it is never excluded as a next hop for holding an in-record",
+		"C09.local is claimed whenever L5 is a next hop of the longest-prefix FIB entry of the probe name, whatever else that entry lists and in whatever order and cost (fibmix universes); a packet's arrival face is the face whose link service received the frame, whatever header fields the frame carries (C09.in is evaluated against that face)",
 			"every Interest carries a fresh nonce (loop/dead-nonce drops are C02's subject); equal canonical white-box dump (tokens renamed by entry, clock-relative) implies equal futures",
 			"states reached by a violating transition are not expanded (their futures would repeat the same leak)",
 		},
